@@ -379,11 +379,23 @@ def x25519_arbitrary_shares(ctx, n):
         d = ctx.call("ke_pk", u)
         if not d.ok:
             continue            # small order / identity: refused by the decoder (C11)
+        ctx.expect(d.b(0) == u, "an accepted u-coordinate re-encodes to the bytes received")
         acc += 1
         for sk in (sks[i % len(sks)], sks[(i + 1) % len(sks)]):
             r = ctx.call("ke_dh", u, sk)
             ctx.expect(r.ok and len(r.b(0)) == 32, "shared secret with an arbitrary peer share")
     ctx.expect(acc >= n, "most arbitrary u-coordinates are acceptable peer shares (%d of %d)" % (acc, len(us)))
+    # an honest public key shifted by the small-order points: seven other public keys (each re-encodes to ITSELF, not to
+    # the prime-order component) with the same shared secret under a clamped scalar
+    base = ctx.call("ke_pub", sks[0])
+    if base.ok:
+        shifts = x25519_torsion_shifts(base.b(0)) or []
+        ref = ctx.call("ke_dh", base.b(0), sks[1])
+        for t_, u_ in enumerate(shifts):
+            d = ctx.call("ke_pk", u_)
+            ctx.expect(d.ok and d.b(0) == u_, "public key + small-order point %d decodes to itself" % (t_ + 1))
+            r = ctx.call("ke_dh", u_, sks[1])
+            ctx.expect(r.ok and ref.ok and r.b(0) == ref.b(0), "... and gives the same X25519 output (clamped scalars clear the cofactor)")
 
 
 def alternative_point_encodings(group, rnd, k=3):
@@ -409,4 +421,68 @@ def alternative_point_encodings(group, rnd, k=3):
     else:
         v = bytes(rnd.getrandbits(8) for _ in range(32))
         out += [("64 bytes", v + v), ("16 bytes", v[:16]), ("33 bytes", v + b"\x00"), ("31 bytes", v[:31]), ("empty", b"")]
+    return out
+
+
+# ---------------------------------------------------------------- Curve25519: shifting a point by small-order points
+_P = 2 ** 255 - 19
+_D = (-121665 * pow(121666, _P - 2, _P)) % _P
+_ELL = 2 ** 252 + 27742317777372353535851937790883648493
+
+
+def _sqrt25519(a):
+    a %= _P
+    r = pow(a, (_P + 3) // 8, _P)
+    if (r * r - a) % _P:
+        r = r * pow(2, (_P - 1) // 4, _P) % _P
+    return r if (r * r - a) % _P == 0 else None
+
+
+def _ed_add(Pt, Q):
+    (x1, y1), (x2, y2) = Pt, Q
+    t = _D * x1 * x2 * y1 * y2 % _P
+    return ((x1 * y2 + x2 * y1) * pow(1 + t, _P - 2, _P) % _P, (y1 * y2 + x1 * x2) * pow(1 - t, _P - 2, _P) % _P)
+
+
+def _ed_mul(Pt, k):
+    R = (0, 1)
+    while k:
+        if k & 1:
+            R = _ed_add(R, Pt)
+        Pt = _ed_add(Pt, Pt)
+        k >>= 1
+    return R
+
+
+def _torsion8():
+    """a point of order exactly 8 on edwards25519 (found by clearing the prime-order part of arbitrary points)"""
+    y = 3
+    while True:
+        x2 = (y * y - 1) * pow(_D * y * y + 1, _P - 2, _P) % _P
+        x = _sqrt25519(x2)
+        if x is not None:
+            T = _ed_mul((x, y), _ELL)
+            if _ed_mul(T, 4) != (0, 1):
+                return T
+        y += 1
+
+
+def x25519_torsion_shifts(u_bytes):
+    """the u-coordinates of P + T for the 7 non-trivial small-order points T, where P is a point of edwards25519 with
+    Montgomery u-coordinate u (None if u is on the twist).  X25519 with a clamped scalar gives the same shared secret
+    for all of them - they are DIFFERENT public keys that a decoder must keep apart."""
+    u = int.from_bytes(u_bytes, "little") % (2 ** 255) % _P
+    if (u + 1) % _P == 0:
+        return None
+    y = (u - 1) * pow(u + 1, _P - 2, _P) % _P
+    x = _sqrt25519((y * y - 1) * pow(_D * y * y + 1, _P - 2, _P))
+    if x is None:
+        return None
+    T8 = _torsion8()
+    out, T = [], T8
+    for _ in range(7):
+        X, Y = _ed_add((x, y), T)
+        if (1 - Y) % _P:
+            out.append(((1 + Y) * pow(1 - Y, _P - 2, _P) % _P).to_bytes(32, "little"))
+        T = _ed_add(T, T8)
     return out
